@@ -73,11 +73,16 @@ func NewObjectStream(stream *Stream) (*ObjectStream, error) {
 	// Get optional /Extends - reference to another object stream
 	var extends *IndirectRef
 	if extendsObj := stream.Dict.Get("Extends"); extendsObj != nil {
-		ref, ok := extendsObj.(*IndirectRef)
-		if !ok {
+		switch ref := extendsObj.(type) {
+		case IndirectRef:
+			// the parser produces IndirectRef values, not pointers
+			r := ref
+			extends = &r
+		case *IndirectRef:
+			extends = ref
+		default:
 			return nil, fmt.Errorf("invalid /Extends type: %T", extendsObj)
 		}
-		extends = ref
 	}
 
 	os := &ObjectStream{
